@@ -401,14 +401,14 @@ impl<'a, T: Elem + SatisfyTraits<Tr>, M: MemCaps, Tr: ?Sized + TrCaps> Cx<'a, T,
                 Target::Heap => self.out.unsupported = true,
                 Target::Guard => self.clone_empty_in_with::<crate::guardmem::GuardMem>(*v),
                 Target::Stack => {
-                    if std::mem::align_of::<T>() > 8 {
+                    if std::mem::align_of::<T>() > 8 || hvcore::rigapi::borrow_tracking() {
                         self.out.unsupported = true
                     } else {
                         self.clone_empty_in_with::<any_vec::mem::Stack<4096>>(*v)
                     }
                 }
                 Target::StackN => {
-                    if std::mem::align_of::<T>() > 8 {
+                    if std::mem::align_of::<T>() > 8 || hvcore::rigapi::borrow_tracking() {
                         self.out.unsupported = true
                     } else {
                         self.clone_empty_in_with::<any_vec::mem::StackN<16, 4096>>(*v)
